@@ -491,3 +491,20 @@ PLANS["C19"] = {
     "level_note": "Trusted: the probe handler (fires once, only in the targeted thread), the child-process clock.",
     "design_ref": "3/C19",
 }
+
+ENGINES = [
+    {"name": "swarm_diff", "path": "harness/vudp/src/bin/udp_swarm.rs, harness/vhttp/src/bin/http_swarm.rs, harness/vws/src/bin/ws_swarm.rs (+ vcore/src/model.rs, wsmodel.rs)", "serves_properties": ["C01", "C02", "C03", "C07", "C08", "C09", "C10", "C11", "C12", "C20"],
+     "kind_free_text": "runtime differential monitor: real storage APIs driven through random / grid histories, compared with a reference model after every operation"},
+    {"name": "select_enum", "path": "harness/vudp/src/bin/udp_select.rs, harness/vhttp/src/bin/http_select.rs, harness/vws/src/bin/ws_select.rs (+ vcore/src/srng.rs)", "serves_properties": ["C02"],
+     "kind_free_text": "runtime predicate monitor over the real peer selection with a scripted RNG enumerating every offset outcome"},
+    {"name": "sched", "path": "harness/vudp/src/bin/udp_sched.rs, udp_stress.rs (+ vcore/src/lin.rs)", "serves_properties": ["C04"],
+     "kind_free_text": "serialised schedule enumeration at probe points over real executions + free-running stress with delay injection; linearizability checker over recorded histories; gdb watchdog"},
+    {"name": "codec_diff", "path": "harness/vproto/src/bin/codec_udp.rs, codec_http.rs, codec_ws.rs, access_list.rs, addr_canon.rs; harness/vudp/src/bin/udp_validator.rs (+ vcore/src/refudp.rs, bencode.rs, json.rs)", "serves_properties": ["C03", "C05", "C11", "C13", "C14", "C15"],
+     "kind_free_text": "runtime differential monitors of codecs / predicates against independent reference implementations"},
+    {"name": "crash_shards", "path": "harness/vproto/src/bin/crash_shards.rs (+ vcore/src/alloc.rs)", "serves_properties": ["C12"],
+     "kind_free_text": "sharded child processes with write-ahead case log, catch_unwind on worker-sized stacks, counting allocator"},
+    {"name": "live", "path": "harness/vudp/src/bin/udp_live.rs, harness/vhttp/src/bin/http_live.rs, harness/vws/src/bin/ws_live.rs (+ */src/live.rs)", "serves_properties": ["C03", "C05", "C06", "C08", "C10", "C11", "C12", "C16", "C17", "C18"],
+     "kind_free_text": "in-process trackers + loopback clients, offline checkers over recorded logs, hook counters for quiescence, mock clock"},
+    {"name": "faults", "path": "harness/vfaults/src/bin/faults.rs, harness/vudp/src/bin/udp_export.rs", "serves_properties": ["C19", "C20"],
+     "kind_free_text": "one child process per injected fault / crash point"},
+]
